@@ -146,6 +146,18 @@ def gen_ops(rng, tier):
         op = emit(kind, y, mo, t)
         if op:
             yield op
+    # 3b. years / months cancelled by the other components: the NATIVE total (a year = 365 days, a month = 30 days) is 0, +-1 us, +-1 s
+    #     while years, months and the part without them are not
+    for _ in range(4000 * n):
+        kind = rng.choice(kinds)
+        y = rng.choice((0, 1, -1, 2, rng.randint(-40, 40)))
+        mo = rng.choice((0, 1, -1, 12, -11, rng.randint(-60, 60)))
+        if not (y or mo):
+            continue
+        total = -(y * 365 + mo * 30) * DAY + rng.choice((0, 0, 0, 1, -1, US, -US, 999999, -999999))
+        op = emit(kind, y, mo, split(rng, total, rng.choice((0, 1, 2, 3, 4))))
+        if op:
+            yield op
     # 4. unit multiples +- 1 us, either sign (truncation of in_*(), carries between components)
     for _ in range(20000 * n):
         kind = rng.choice(kinds)
